@@ -497,12 +497,23 @@ func (fg *FnGen) valEq(a, b *Val) Term {
 	}
 	if _, ok := types.Unalias(a.T).Underlying().(*types.Interface); ok {
 		if len(b.L) == 2 {
-			return And(Eq(a.L[0], b.L[0]), Eq(a.L[1], b.L[1]))
+			// tag 0 is the nil interface whatever the payload
+			return And(Eq(a.L[0], b.L[0]), Or(Eq(a.L[0], IntLit(0)), Eq(a.L[1], b.L[1])))
 		}
 	}
 	if _, ok := types.Unalias(a.T).Underlying().(*types.Slice); ok {
 		// only comparison with nil is legal
 		return Eq(a.L[0], IntLit(0))
+	}
+	if isStringType(a.T) && len(a.L) == 1 && len(b.L) == 1 {
+		// s == "" is a length test (the empty string is the only string of length 0)
+		e := fg.strLitTerm("")
+		if b.L[0].S == e.S {
+			return Eq(fg.strLen(a.L[0]), IntLit(0))
+		}
+		if a.L[0].S == e.S {
+			return Eq(fg.strLen(b.L[0]), IntLit(0))
+		}
 	}
 	if len(a.L) != len(b.L) {
 		panic(unsupported("comparison of differently shaped values"))
